@@ -173,7 +173,7 @@ else:
     mc = [consts(3, 1, 3, 3), consts(3, 1, 2, 3), consts(2, 2, 2, 3), consts(2, 1, 2, 4), consts(1, 2, 3, 4)]
     live = consts(3, 1, 1, 2)
     graphs = [consts(3, 1, 2, 2), consts(2, 1, 2, 3), consts(2, 2, 2, 2)]
-    simk, simn, simd = consts(3, 2, 3, 6), 800, 14
+    simk, simn, simd = consts(3, 2, 3, 6), 500, 14
 
 
 def tlc_mc(k):
